@@ -172,3 +172,19 @@ impl<V> DotBuilder for IpMatcher<V> {
         Some(node_name)
     }
 }
+
+#[cfg(feature = "verif")]
+impl<T> IpMatcher<T> {
+    /// Canonical (sorted) rendering of the matcher state (verification hook)
+    pub fn verif_snapshot(&self) -> String {
+        let mut matchers: Vec<String> = self.matchers.iter().map(|(ip, matcher)| format!("{ip}=>{}", matcher.verif_snapshot())).collect();
+        matchers.sort();
+
+        format!(
+            "IP{{count:{},none:{},matchers:[{}]}}",
+            self.count,
+            self.no_matcher.verif_snapshot(),
+            matchers.join(",")
+        )
+    }
+}
